@@ -227,6 +227,7 @@ impl C11 {
         use bio::io::fasta::FastaRead;
         use bio::io::fastq::FastqRead;
         let data = data.to_vec();
+        let switch = seed % 2 == 0;
         guard(move || {
             let rd = Chunky::new(data, seed, chunk);
             let mut v = vec![];
@@ -242,6 +243,14 @@ impl C11 {
                     if v.len() > limit {
                         return Err(format!("REUSE-NO-END read() with a reused record yielded more than {} records", limit));
                     }
+                    if switch && v.len() == 1 {
+                        // mixed use of one reader: the first record through read(), the rest through records()
+                        for r in reader.records().take(limit + 1) {
+                            let r = r.map_err(|e| format!("record {} (records() after read()): {}", v.len(), e))?;
+                            v.push(Rec { id: r.id().to_string(), desc: r.desc().map(|s| s.to_string()), seq: r.seq().to_vec(), qual: r.qual().to_vec() });
+                        }
+                        break;
+                    }
                 }
             } else {
                 let mut reader = fasta::Reader::from_bufread(BufReader::with_capacity(cap, rd));
@@ -254,6 +263,13 @@ impl C11 {
                     v.push(Rec { id: rec.id().to_string(), desc: rec.desc().map(|s| s.to_string()), seq: rec.seq().to_vec(), qual: vec![] });
                     if v.len() > limit {
                         return Err(format!("REUSE-NO-END read() with a reused record yielded more than {} records", limit));
+                    }
+                    if switch && v.len() == 1 {
+                        for r in reader.records().take(limit + 1) {
+                            let r = r.map_err(|e| format!("record {} (records() after read()): {}", v.len(), e))?;
+                            v.push(Rec { id: r.id().to_string(), desc: r.desc().map(|s| s.to_string()), seq: r.seq().to_vec(), qual: vec![] });
+                        }
+                        break;
                     }
                 }
             }
